@@ -14,9 +14,12 @@ def parseEH (s : String) : Option (Option ErrHandler) :=
   | _ => none
 
 def handle : List String → Verdict
-  | ["serve", stS, ctH, ehS, streamS, writtenH, failedS, kind, rStS, rCtH, rBodyH] =>
-    match stS.toNat?, hexField ctH, parseEH ehS, hexField writtenH, rStS.toNat?, hexField rCtH, hexField rBodyH with
-    | some st, some ct, some eh, some written, some rSt, some rCt, some rBody =>
+  | ["serve", stS, ctH, ehS, streamS, writtenH, failedS, kind, rStS, rCtH, rBodyH, clH] =>
+    match stS.toNat?, hexField ctH, parseEH ehS, hexField writtenH, rStS.toNat?, hexField rCtH, hexField rBodyH, hexField clH with
+    | some st, some ct, some eh, some written, some rSt, some rCt, some rBody, some cl =>
+      -- a Content-Length header, when the handler sets one, must be the length of the body that is sent: a stale one
+      -- makes a real connection drop or truncate the response
+      let clOk := cl.isEmpty || (String.ofList (cl.map fun c => Char.ofNat c.toNat)).toNat? == some rBody.length
       let cfg : Cfg := { status := st, contentType := ct, errorHandler := eh, stream := streamS == "1" }
       let failed := failedS == "1"
       let m := serve cfg ⟨written, failed⟩
@@ -27,7 +30,8 @@ def handle : List String → Verdict
       let okStatus := if st != 0 then st else 200
       let errResp := errorPath cfg {}
       let pred : Option String :=
-        if cfg.stream then none
+        if !clOk then some s!"Content-Length header {String.ofList (cl.map fun c => Char.ofNat c.toNat)} but the body sent has {rBody.length} bytes (failed={failed}, {kind})"
+        else if cfg.stream then none
         else if !failed then
           (if rSt == okStatus && rBody == written && rCt == ct then none else some s!"successful render: status={rSt} (want {okStatus}) bodyIsDocument={rBody == written}")
         else
@@ -39,7 +43,7 @@ def handle : List String → Verdict
         nontrivial := failed && !written.isEmpty,
         tags := [if cfg.stream then "streamed" else "buffered", if failed then "fail:" ++ kind else "ok", if eh.isSome then "errorhandler" else "default-error"],
         sig := s!"serve;{if cfg.stream then "streamed" else "buffered"};{if failed then "fail" else "ok"}" }
-    | _, _, _, _, _, _, _ => .badOp
+    | _, _, _, _, _, _, _, _ => .badOp
   | _ => .badOp
 
 end TemplVerif.Drive.C11
